@@ -246,5 +246,7 @@ def check(ctx):
     # yields before and at the start of the new timeline (prepare_frame phase table, override scope: C10/R1-R2)
     from rules import c10
     c10.rules_override_scope(ctx, prefix="R5")
+    # the chain reacts to Ended events: animate sends exactly one event per state change, none while the state rests (C18)
+    c18.rules(ctx, c18.build(ctx, F), tag="/animate")
     ctx.notes.append("not decided: change-detection and cross-frame ordering semantics of bevy's scheduler")
     ctx.assumptions += ["bevy Query::get_mut(entity) yields the entity's own components", "dyn_clone::clone_box is a faithful clone"]
